@@ -4,7 +4,9 @@
 //! Every sub-command drives the real code and writes an ndjson trace that the
 //! corresponding *_Trace.tla specification validates with TLC.
 mod bloom;
+mod keyhash;
 mod cache;
+mod scenario;
 mod sched;
 mod policy;
 mod sketch;
@@ -37,7 +39,9 @@ fn main() {
     let code = match cmd.as_str() {
         "sketch" => sketch::run(&o),
         "bloom" => bloom::run(&o),
+        "keyhash" => keyhash::run(&o),
         "cache" => cache::run(&o),
+        "scenario" => scenario::run(&o),
         "policy" => policy::run(&o),
         _ => {
             eprintln!("unknown command {}", cmd);
